@@ -130,9 +130,14 @@ class MigrationList(object):
             The new migration list.
         """
         recorder = MigrationRecorder(connection)
-        recorder.ensure_schema()
-
         migration_list = cls()
+
+        if not recorder.has_table():
+            # Nothing has been recorded yet. This is only a lookup, so don't
+            # create the table just to find out that it's empty. Anything
+            # that records migrations will create it when needed.
+            return migration_list
+
         queryset = recorder.migration_qs
 
         if app_label:
